@@ -166,6 +166,8 @@ pub struct CacheEntry {
 #[verifier::external_body]
 pub struct BucketLock { _p: () }
 impl BucketLock {
+    // what the bucket holds right now (only used to account for entries dropped without being measured)
+    pub uninterp spec fn held(&self) -> Seq<CacheEntry>;
     #[verifier::external_body]
     pub fn read(&self) -> &Vec<CacheEntry> { unimplemented!() }
     // the write guard, modelled as the entries themselves
@@ -178,6 +180,17 @@ pub struct EvictionLock { _p: () }
 impl EvictionLock {
     #[verifier::external_body]
     pub fn try_lock(&self) -> Option<()> { unimplemented!() }
+    #[verifier::external_body]
+    pub fn lock(&self) -> () { unimplemented!() }
+}
+// the gauge's value at this instant (an absolute store is a "delta" of unknown size)
+pub uninterp spec fn gauge_now() -> int;
+// entries.iter().map(|entry| entry.size).sum()   (rule R-sum)
+#[verifier::external_body]
+pub fn sum_entry_sizes(v: &Vec<CacheEntry>) -> (r: usize)
+    ensures r as int == total_size(v@),
+{
+    v.iter().map(|e| e.size).sum()
 }
 
 pub struct ClockCache {
